@@ -564,12 +564,20 @@ def run_scenario(ctx, names, src_levels, tts, as_dict, signs, kinds, with_none):
                         known = F11
                     elif not levels and lm is not None and not monotone(lm):
                         known = F3
-                    tags = dict(call='load', fmt='pickle', target=kind, levels=levels, auto=auto)
+                    # reordering enabled in the receiving manager: `find_or_add` asks for
+                    # reordering only inside a reordering context, `load` opens none
+                    dyn = kind != 'same' and rng.random() < 0.15
+                    if dyn:
+                        s.op(mid, 'configure', 1)
+                        s.op(mid, 'fire_in', 1)
+                    tags = dict(call='load', fmt='pickle', target=kind, levels=levels, auto=auto, dyn=dyn)
                     if auto:
                         hh = sc.hold_handle()
                         a2 = s.op(mid, 'pload_auto', fh, hh, int(levels), *fields)
                     else:
                         a2 = s.op(mid, 'pload', fh, int(levels), *fields)
+                    if dyn:
+                        s.op(mid, 'fire_off')
                     got = sc.judge(mid, a2, f'pickle load into {desc} levels={levels}', tags,
                                    held=auto, expect_refusal=(lm is None), known=known)
                     if kind == 'same' and got is not None and levels and not has_const:
@@ -771,8 +779,8 @@ def check_C12(ctx):
         abc = ['a', 'b', 'c']
         abcd = ['a', 'b', 'c', 'd']
         n = 0
-        budget_tail = 18 if ctx.tier == 'quick' else 60
-        total = 40 if ctx.tier == 'quick' else 2000
+        budget_tail = 25 if ctx.tier == 'quick' else 60
+        total = 250 if ctx.tier == 'quick' else 4000
         # exhaustive part (thorough): every single function of 3 variables
         singles = list(range(256)) if ctx.tier == 'thorough' else []
         while n < total and ctx.time_left() > budget_tail:
